@@ -204,6 +204,14 @@ EXTRA = [
     # the library imported again after a helper took a constructor's name: helpers defined in between call the library's
     "from nada_dsl import *\ndef Integer(x: int) -> int:\n    return x\ndef g(x: int) -> int:\n    return Integer(x)\nfrom nada_dsl import *\n"
     "def nada_main():\n    p = Party(name='P')\n    y = g(1)\n    z = [y]\n    return []\n",
+    # a module-level variable read in a function that assigns the name only inside a loop body / a nested loop body
+    "from nada_dsl import *\nbest = 1\ndef nada_main():\n    y = best\n    for i in range(2):\n        best = i\n    z = [y]\n    return []\n",
+    "from nada_dsl import *\nbest = Integer(1)\ndef h(x: Integer) -> Integer:\n    y = best + x\n    for i in range(2):\n        for j in range(2):\n            best: int = j\n    return y\n"
+    "def nada_main():\n    w = h(Integer(1))\n    return []\n",
+    # a comprehension variable named like an enclosing variable of another type
+    "from nada_dsl import *\ndef nada_main():\n    p = Party(name='P')\n    v = SecretInteger(Input(name='v', party=p))\n    steps = [v for v in range(3)]\n    w = steps[2]\n"
+    "    u = [[v + 1 for v in range(2)] for k in range(2)]\n    t = u[0][1]\n    return [Output(v, 'o', p)]\n",
+    "from nada_dsl import *\nv = 'text'\ndef nada_main():\n    p = Party(name='P')\n    xs = [v for v in range(2)]\n    y = xs[0] + 1\n    z = v\n    return []\n",
     # the target of an inner loop is a variable that the enclosing loop's body reads
     "from nada_dsl import *\ndef nada_main():\n    p = Party(name='P')\n    j = Integer(1)\n    for i in range(2):\n        y = j\n        for j in range(1):\n            z = j\n    return []\n",
     "from nada_dsl import *\ndef nada_main():\n    p = Party(name='P')\n    a = SecretInteger(Input(name='a', party=p))\n    t = a\n    for i in range(2):\n        for k2 in range(2):\n"
